@@ -266,6 +266,7 @@ EX_GAUGE = EX([
     ("exec_fallbacks_in_flight_le_limit", "fallbacks_in_flight_le_limit", "never more callers inside a fallback function than the fallback limit"),
     ("exec_negative_fallback_limit", "negative_fallback_limit_refuses_nobody", "a negative fallback limit refuses nobody")])
 EX_KILL = EX([("exec_disabled_is_pass_through", "disabled_is_pass_through", "the kill switch, every schedule: with Disabled on, Execute is the run function called directly — its answer, error or panic straight to the caller, exactly one direct call, no admission, no run event, no fallback, no fallback event, and both gauges stay at zero whatever everybody else is doing")])
+EX_FBVIEW = [(("exec_fb_phase_is_gauge_step", "CM.Props.ExecFbView.fb_phase_is_gauge_step", "the fallback phase of the whole-Execute model IS the bulkhead thread the K6 tie of `fallback` is about: each of its steps is `Gauge.step` on (gauge, limit) from the corresponding local state, or an event delivery that leaves the bulkhead alone"), "Props.ExecFbView")]
 EX_LIVE = EX([("exec_never_deadlocks", "never_deadlocks", "whole Executes racing transitions and reconfigurations never deadlock")])
 RD_VIEW = [(("dyn_call_thread_view", "CM.Props.RunDynView.call_thread_view", "every schedule of calls racing operators, seen from one call thread, is a solo run of the static model's thread against some oracle — the runs the K6 ties of `run` / `IsOpen` / `openCircuit` / `close` quantify over"), "Props.RunDynView")]
 
@@ -395,10 +396,10 @@ PROPS = {
                 ("tie_GoHCloser_ShouldClose", "CM.GoTie.GoHCloser.go_ShouldClose_eq", "`ShouldClose` compares the successes in a row with the required number")]) + TC +
             [C("close"), C("checkSuccess")] + CLOSER_CFG + K6_TC + TC_HOOK + HFAC_CLOSER + HFAC_CHAIN[:1] + HFAC_LAYERS[:1]),
     "C04": ("the gauges and limits: `throttleConcurrentCommands`, the deferred decrements in `run` / `fallback`, the published limits",
-            [C("throttleConcurrentCommands"), C("ConcurrentCommands"), C("ConcurrentFallbacks"), RUN, FALLBACK] + LIVECFG + ERR_LIMIT + ATOM_I64 + RUN_C04 + RUN_EVENTS[:1] + RUN_VIEWS[1:] + K6_FB + K6_CORE + K6_RUN[:1] + RD_GAUGE + EX_GAUGE + EX_EVENTS[:1]),
+            [C("throttleConcurrentCommands"), C("ConcurrentCommands"), C("ConcurrentFallbacks"), RUN, FALLBACK] + LIVECFG + ERR_LIMIT + ATOM_I64 + RUN_C04 + RUN_EVENTS[:1] + RUN_VIEWS[1:] + K6_FB + K6_CORE + K6_RUN[:1] + RD_GAUGE + EX_GAUGE + EX_EVENTS[:1] + EX_FBVIEW),
     "C05": ("the classification chain of `run`",
             [C("checkErrBadRequest"), C("checkErrTimeout"), C("checkErrInterrupt"), C("checkErrFailure"), C("checkSuccess"), RUN] + FAN_RUN + ALL + ERR_BAD + CTOR + RUN_EVENTS + K6_RUN[:1] + RD_EVENTS + EX_EVENTS),
-    "C06": ("fallback rules: `Execute` and `fallback`", [FALLBACK, EXECUTE, RUNENTRY] + FAN_FB + ERR_BAD + ERR_NOTBAD + K6_FB[:1] + K6_FB[2:] + EX_CONTRACT + EX_EVENTS[:2] + EX_LIVE),
+    "C06": ("fallback rules: `Execute` and `fallback`", [FALLBACK, EXECUTE, RUNENTRY] + FAN_FB + ERR_BAD + ERR_NOTBAD + K6_FB[:1] + K6_FB[2:] + EX_CONTRACT + EX_EVENTS[:2] + EX_LIVE + EX_FBVIEW),
     "C07": ("contexts: the derived deadline context in `run`, the caller's context everywhere else", [RUN, FALLBACK, EXECUTE]),
     "C08": ("overrides and pass-through: `IsOpen`, `allowNewRun`, the transitions, `Execute`'s Disabled branch, the published flags",
             [C("IsOpen"), C("isEmptyOrNil"), C("allowNewRun"), C("openCircuit"), C("close"), C("attemptToOpen"), EXECUTE] + LIVECFG + SETCFG + ATOM_BOOL + CIRC_MISC + RD_C08 + RD_ALT + RD_VIEW + EX_KILL),
@@ -452,7 +453,7 @@ UNITS = {"F_": "gocircuit", "All": "gocircuit", "T_GoHOpener": "gohopener", "T_G
          "T_GoFbStatsVar": ["gofbstatsvar", "gofbstats"], "T_GoRunStatsVar": ["gorunstatsvar", "gorunstats"], "T_GoSloVar": "goslovar",
          "T_GoRPVar": ["gorpvar", "gorpsnap", "gosdvar", "gosorteddurations"], "T_GoManagerVar": "gomanagervar", "T_GoExpvarToVal": "goexpvartoval",
          "T_GoFanRunVar": "gofanrunvar", "T_GoFanFbVar": ["gofanfbvar", "gofanrunvar"], "T_GoCircuitVar": "gocircuitvar",
-         "I_Core": [], "Props.RunAll": [], "Props.RunDynAll": [], "Props.RunDynView": [], "Props.RunDynC08": [], "Props.ExecAll": [], "I_Fb": "gofbi", "I_Run": "goruni", "I_Mgr": ["gomgri", "gomgriall", "gomanager"], "I_RC": ["gorciclear", "gorciadv", "gorciops"], "I_TC": "gotci", "I_Call": "gocalli",
+         "I_Core": [], "Props.RunAll": [], "Props.RunDynAll": [], "Props.RunDynView": [], "Props.RunDynC08": [], "Props.ExecAll": [], "Props.ExecFbView": [], "I_Fb": "gofbi", "I_Run": "goruni", "I_Mgr": ["gomgri", "gomgriall", "gomanager"], "I_RC": ["gorciclear", "gorciadv", "gorciops"], "I_TC": "gotci", "I_Call": "gocalli",
          "T_GoLiveLogic": ["goneveropens", "gonevercloses", "gohopenercfg", "gohclosercfg", "goslocfg"]}
 
 def units_of(prop):
